@@ -135,9 +135,11 @@ class Budget:
 
 
 def run(v, tier, seed):
-    vlib.make("plain", "pn")
+    # if a refactoring of PulseNode's private members breaks the harness, the public-API-only variant pn_np is used: the private-state
+    # comparison shrinks to parent + scheduled time, the list checks are skipped; the PulseAbs monitor and the event comparison run unchanged
+    pnname, private_ok = vlib.make_with_fallback("plain", "pn")
     B = Budget(10)
-    pn = vlib.binpath("plain", "pn")
+    pn = vlib.binpath("plain", pnname)
     W = lambda n: vlib.scratch("C20", n)
     tot = collections.Counter(); samples = []; mc_notes = []; t_notes = {}
     quick = (tier == "quick")
@@ -216,7 +218,7 @@ def run(v, tier, seed):
     def random_histories(shard, histories, nops, N, maxT, ntraced, variant="plain"):
         rep = W("rnd_%d.ndjson" % shard); tr = W("trace_%d.ndjson" % shard)
         t0 = time.time()
-        rc, out, err = vlib.run([vlib.binpath(variant, "pn"), "random", str(seed * 131 + shard), str(histories), str(nops), str(N), str(maxT), "999", rep, tr, str(ntraced)], timeout=3000)
+        rc, out, err = vlib.run([vlib.binpath(variant, asan_name if variant == "asan" else pnname), "random", str(seed * 131 + shard), str(histories), str(nops), str(N), str(maxT), "999", rep, tr, str(ntraced)], timeout=3000)
         if rc in (66, 67) or (rc < 0 and rc != -999):
             # the library itself died under legal use of its public API (the harness is clean on the unchanged tree): no callback fires any more
             what = "memory error reported by the sanitizer" if rc in (66, 67) else "the process was killed by signal %d inside the PulseNode code" % -rc
@@ -245,6 +247,7 @@ def run(v, tier, seed):
         vlib.require_coverage(r, ["Do", "Ask", "Pulse"], "PulseAbs")    # Do = the actions without parameters (TLC names them after the operator they expand to)
         return r
 
+    asan_name = pnname
     if quick:
         gens = [("A3", 3, 1, 0, "{}", ALLTOP, 3, 40),                    # every public call and quiet cycle, 3 nodes
                 ("R3", 3, 1, 1, '{"inval"}', '{"attach", "inval", "tick"}', 3, 40),   # nested invalidations (the F20 family), 3 nodes
@@ -258,7 +261,7 @@ def run(v, tier, seed):
                 ("R3", 3, 1, 2, '{"inval"}', RED, 3, 100),                                              # two nested invalidations per cycle
                 ("R3k", 3, 1, 1, '{"remove", "clear"}', RED, 3, 100),                                    # nested detaches
                 ("S4", 4, 1, 0, "{}", '{"attach0", "remove", "inval", "tick"}', 3, 100)]                 # three siblings: the sorted insert, its tail shortcut and its walk
-        vlib.make("asan", "pn")
+        asan_name, _ = vlib.make_with_fallback("asan", "pn")
         rnd = [(s, 60000, 300, 6, 200, 120) for s in range(5)] + [(5, 3000, 400, 5, 60, 60), (6, 6000, 300, 6, 200, 0, "asan"), (7, 6000, 200, 5, 60, 0, "asan")]
 
     with cf.ThreadPoolExecutor(max_workers=24) as ex:
@@ -353,12 +356,14 @@ def run(v, tier, seed):
            "evaluations": tot["behaviours"] + tot["r_histories"], "distinct_nontrivial": tot["followed"] + tot["r_distinct_histories"],
            "rule": "behaviours = greedy path cover of EVERY transition TLC generated for PulseImpl (instances listed in model_runs); distinct by construction (each adds an uncovered transition), "
                    "non-trivial = followed to the end with every event and every private-state projection equal to the specification's; random histories (300 operations on 6 nodes, monitor on all, TLC on a subset): distinct operation sequences",
+           "private_state_available": private_ok,
            "exhaustive": True, "model_runs": mc_notes, "timing": t_notes, "samples": samples[:5]}
     assumptions = ["single-threaded use, as the library requires (PulseNode is not thread safe)",
                    "the clock is frozen during a server cycle; a pulsed node re-arms itself to a later time or never (otherwise no server loop terminates)",
                    "fewer than 8 self-invalidations per recalculation (the repaired GetPulseTimeAux re-asks at most 8 times); nested calls per cycle: <= 2 in the model, <= 3 in random histories",
                    "callbacks do not destroy nodes; a callback detaches only itself or its own children and attaches only parentless nodes",
                    "Either-clauses of PulseAbs where PulseNode.h is silent: a node detached during a sweep / recalculation may still be called back in it; after a recalculation with nested calls the reported time may be earlier than the minimum (never later)"]
+    if not private_ok: assumptions.append("the harness was built WITHOUT access to PulseNode's private members (they no longer compile): the state comparison covers parent and scheduled time only (public API), list well-formedness of the real nodes was not checked; all property-level oracles ran")
     return "model_checking", cov, assumptions
 
 
